@@ -26,7 +26,8 @@ def run_jobs(modname, func, jobs, timeout=600, nproc=None, shims=(), env=None):
         e["VF_JOB"] = json.dumps(job)
         e["VF_OUT"] = outp
         try:
-            pr = subprocess.run([boot.PY, "-X", "faulthandler", "-m", "vf.shard", modname, func], cwd=wd, env=e,
+            # job["pyflags"]: interpreter options of the worker (e.g. ["-O"]); children it starts inherit them via boot.pyflags()
+            pr = subprocess.run([boot.PY, "-X", "faulthandler"] + list(job.get("pyflags", [])) + ["-m", "vf.shard", modname, func], cwd=wd, env=e,
                                 stdout=subprocess.PIPE, stderr=subprocess.PIPE, timeout=timeout)
         except subprocess.TimeoutExpired:
             return job, None, "watchdog: worker exceeded %ds" % timeout
